@@ -153,6 +153,17 @@ CLAIMED = {
          'all five entry points with invariants NoCrash / ErrorLineInRange / ErrorAtLastLine; every enumerated sequence, all single-line mutations of '
          'well-formed documents and seeded soups up to 40 lines are rendered and parsed by the real entry points; the outcome class (accept | ParserError@k | '
          'internal:<type>) is judged by TLC (C05.internal, line_range, fault_line for six catalogued fault kinds decided by TLC itself, terminates).'},
+    'C16': {'design_ref': 'DESIGN.md §7 C16',
+ 'note': 'expat / ElementTree parsers are the arbiters of well-formedness; timestamps and hostnames not asserted; which of several problem steps an entry '
+         'names is free.',
+ 'technique': 'TLA+ specs (XmlEscape.tla, JUnit.tla) model-checked with TLC + TLC-judged projections of real JUnit reports',
+ 'text': '(a) XmlEscape.tla: 18 character classes, the attribute pipeline (ElementTree escaping after the invalid-character filter) and the CDATA pipeline '
+         '(strip_escapes, escape_CDATA, patched writer) with XML 1.0 lexical acceptors; TLC proves every class string up to length 4/5-7 well-formed after the '
+         'pipeline; every class string is concretised into feature/scenario/step names, assertion messages and captured stdout/stderr of real --junit runs and '
+         'the documents are parsed by expat. (b) JUnit.tla transcribes the reporter walk and _process_scenario branch by branch (partial operations = CRASH); '
+         'TLC proves testcases / status / counters / problem_entry / no_crash on every small feature-after-a-run; real runs of the shared plan (plus injected '
+         'raising cleanups and the behave.reporter.junit.* switches) and rendered design cases are parsed and judged by TLC with status classes computed from '
+         'the recorded final statuses.'},
 }
 
 PENDING_REASON = "check not built yet in this round (planned with the same TLA+/TLC technique, see DESIGN.md §7); not claimed until its check exists"
